@@ -112,7 +112,8 @@ def split(data, cuts):
 
 
 @standin("C02", bound="stream of all 22 message types (~1.2 kB): every 1-cut, every 2-cut on a 7-byte grid plus all cuts "
-                       "inside the first three messages, 1-byte dribble, 300 random k-cuts; both sides",
+                       "inside the first three messages, 1-byte dribble, 300 random k-cuts; 5 streams with messages of 32767..65535 bytes x 6 "
+                       "cut sets; both sides",
          target="pox.openflow.of_01:Connection.read / pox.datapaths.switch:OFConnection.read", timeout_s=250)
 def segmentation_independence(tier, seed):
   rng = random.Random(seed)
@@ -154,6 +155,25 @@ def segmentation_independence(tier, seed):
       if got != msgs[:done] or rest != stream[pos:k]:
         return "switch delivered %d messages from a %d byte prefix (expected %d)" % (len(got), k, done)
     yield ("cuts=%s" % (cuts if len(cuts) < 8 else "%d cuts" % len(cuts)), t)
+  # messages near the 16-bit length limit (they necessarily arrive over many 2048-byte reads)
+  for blen in (32759, 32760, 32761, 40000, 65527):
+    big = of.ofp_echo_request(body=bytes((i * 31 + blen) & 255 for i in range(blen)))
+    big.xid = 77
+    pin = of.ofp_packet_in(in_port=1, data=b"z" * (blen - 10), total_len=blen - 10)
+    pin.xid = 78
+    seq = [msgs[0], big.pack(), msgs[18], pin.pack(), msgs[19]]
+    bstream = b"".join(seq)
+    for cuts in ([], [1], [len(seq[0]) + 3], [len(seq[0]) + len(seq[1]) - 1], [len(seq[0]) + len(seq[1]) + 1],
+                 rng.sample(range(1, len(bstream)), 5)):
+      def t(cuts=cuts, seq=seq, bstream=bstream):
+        chunks = split(bstream, cuts)
+        got, outcome, rest = controller_run(chunks)
+        if outcome != "open" or got != seq or rest != b"":
+          return "controller: outcome %s, %d/%d messages, %d bytes left" % (outcome, len(got), len(seq), len(rest))
+        got, outcome, rest, sent = switch_run(chunks)
+        if outcome != "open" or got != seq or rest != b"":
+          return "switch: outcome %s, %d/%d messages, %d bytes left" % (outcome, len(got), len(seq), len(rest))
+      yield ("large message of %d bytes, cuts=%s" % (blen + 8, cuts), t)
 
 
 @standin("C10", bound="22 message types: every truncation point, every length-field value 0..len+8, every type/version "
@@ -205,5 +225,14 @@ def malformed_messages_are_contained(tier, seed):
             e = e.pack()
           if len(e) < 12 or e[1] != 1 or (e[2] << 8 | e[3]) != len(e):
             return "switch sent something that is not a well-formed error message"
+        # a complete frame whose type byte is not an OpenFlow 1.0 message type: "answered with an error and skipped or that
+        # one connection is closed" - it is never handed on as if it were a message
+        if len(bad) >= 8 and (bad[2] << 8 | bad[3]) == len(bad) and bad[1] > 21 and bad[0] == 1:
+          if len(got) > 1 and outcome == "open":
+            return "controller: frame of unknown type %d was passed over silently (connection open, later traffic delivered)" % bad[1]
+          if outcome2 == "open" and not sent:
+            return "switch: frame of unknown type %d was neither answered with an error nor was the connection closed" % bad[1]
+          if len(got2) > 2 or (len(got2) == 2 and got2[1] != after):
+            return "switch: frame of unknown type %d was handed to the message handler" % bad[1]
         return None
       yield ("msg%d/%s" % (mi, name), t)
